@@ -50,7 +50,11 @@ func drawC13(t *rapid.T) *C13Case {
 	c.CT = rapid.SampledFrom(allClipTypes).Draw(t, "ct")
 	c.FR = rapid.SampledFrom(allFillRules).Draw(t, "fr")
 	c.Rect = drawRect(t, E)
-	c.Eps = rapid.SampledFrom([]float64{0, 1, 2.5}).Draw(t, "eps")
+	c.Eps = rapid.SampledFrom([]float64{0, 1, 2.5, float64(E) / 64, float64(E) / 8}).Draw(t, "eps")
+	if c.Op == "simplify" && rapid.Bool().Draw(t, "zigzag") {
+		// many decisions close to epsilon (the generator of C16)
+		c.Subj = Paths{drawZigZag(t, E, c.Eps, rapid.IntRange(4, 30).Draw(t, "zn"))}
+	}
 	c.Q = P{X: rapid.Int64Range(-E, E).Draw(t, "qx"), Y: rapid.Int64Range(-E, E).Draw(t, "qy")}
 	if rapid.Bool().Draw(t, "translate") {
 		c.Scale = 1
@@ -65,8 +69,28 @@ func drawC13(t *rapid.T) *C13Case {
 	} else {
 		maxS := (int64(1) << 61) / (2 * E)
 		sb := rapid.IntRange(1, 57).Draw(t, "scaleBits")
+		if rapid.IntRange(0, 2).Draw(t, "thresholdScale") == 0 {
+			// land the transformed extent next to a width where arithmetic changes character
+			// (int64 products of differences, float64 mantissa, the advertised limit)
+			target := rapid.SampledFrom([]int{30, 31, 32, 33, 34, 47, 52, 53, 54, 60, 61}).Draw(t, "targetBits")
+			sb = max(1, target-ebits-rapid.IntRange(0, 1).Draw(t, "targetSlack"))
+		}
+		if c.Op == "simplify" && rapid.Bool().Draw(t, "simplifyBranch") {
+			// SimplifyPath64 switches from exact int64 cross products to floating point when a
+			// coordinate difference reaches 2^31: put the largest differences around that switch
+			sb = max(1, rapid.SampledFrom([]int{30, 31, 32, 32, 32, 33}).Draw(t, "diffBits")-ebits-1)
+			if rapid.Bool().Draw(t, "fullSpans") {
+				// products of two differences approach 2^64 only when the vertices span the whole
+				// extent in both axes: uniform positions instead of rapid's small-biased ones
+				var p Path
+				for i, n := 0, rapid.IntRange(4, 9).Draw(t, "sn"); i < n; i++ {
+					p = append(p, P{X: spreadCoord(rapid.Int64Range(-E, E).Draw(t, "sx"), E), Y: spreadCoord(rapid.Int64Range(-E, E).Draw(t, "sy"), E)})
+				}
+				c.Subj = Paths{p}
+			}
+		}
 		s := int64(1) << sb
-		if rapid.Bool().Draw(t, "oddScale") {
+		if c.Op != "simplify" && rapid.Bool().Draw(t, "oddScale") {
 			s = s/2*3 + 1
 		}
 		c.Scale = max(2, min(s, maxS))
@@ -184,7 +208,9 @@ func judgeC13Inner(c *C13Case, cx *Ctx) *Violation {
 		p := first(c.Subj)
 		r0 := c2.SimplifyPath64(p, c.Eps, true)
 		r1 := c2.SimplifyPath64(first(subjT), c.Eps*s, true)
-		if !kit.PathsEqual(Paths{mapPaths(Paths{r0}, c.T)[0]}, Paths{r1}) && !excuse() {
+		// (no excuse for large extents here: SimplifyPath64 measures distances in floating
+		// point beyond 2^31 and is not in the domain of the listed overflow finding)
+		if !kit.PathsEqual(Paths{mapPaths(Paths{r0}, c.T)[0]}, Paths{r1}) {
 			return violf("SimplifyPath64 keeps different vertices after scaling by %d and shifting by (%d,%d): %v vs (transformed back) base result %v; path %v eps %v", c.Scale, c.TX, c.TY, r1, r0, p, c.Eps)
 		}
 		cx.St.Eval(c, len(r0) < len(p), labels...)
